@@ -256,6 +256,7 @@ class RunResult:
     def __init__(self):
         self.impl = {}
         self.model = {}
+        self.model_raw = {}     # id -> the exact line the extracted runner printed
         self.crashes = []       # (side, shard, returncode, stderr tail, first missing case id)
         self.wall = 0.0
 
@@ -302,6 +303,8 @@ def run_cases(cases, workdir, nshards=None, timeout=900, label='cases', sides=('
                         continue
                     cid, d = parse_obs_line(line)
                     table[cid] = d
+                    if side == 'model':
+                        res.model_raw[cid] = line.rstrip('\n')
                     got += 1
         if rc != 0 or got != len(sh):
             first_missing = next((c.id for c in sh if c.id not in table), None)
